@@ -319,9 +319,18 @@ theorem publicN_too_few_rows {α : Type} [RealOps α] (m : PMode) (rq : List ℚ
 /-- D40: after a CL or Brier test the catalog is bound to a space-magnitude region, so the S test can grid it; the
     binding is idempotent and the S test binds nothing -/
 theorem region_binding (m : PMode) (r : CatRegion) :
-    (m ≠ .S → regionAfter m r = .full ∧ canGrid .S (regionAfter m r) = true) ∧
+    (m ≠ .S → r ≠ .fullOther → regionAfter m r = .full ∧ canGrid .S (regionAfter m r) = true) ∧
     regionAfter .S r = r ∧ regionAfter m (regionAfter m r) = regionAfter m r := by
   cases m <;> cases r <;> simp [regionAfter, canGrid]
+
+/-- **the forecast's region decides** (round 5): a CL / Brier test on a catalog whose region has no magnitudes — whatever
+    its cells and their order — grids the catalog on the forecast's region (the region is REPLACED, not completed), and
+    afterwards every test, the S test included, grids on the forecast's region; only a space-magnitude region of the
+    catalog's own is left alone -/
+theorem magnitude_less_region_is_replaced (m : PMode) (hm : m ≠ .S) (r : CatRegion) (hr : r ≠ .fullOther) :
+    gridsOnForecastRegion m r = true ∧ regionAfter m r = .full ∧
+    ∀ m', gridsOnForecastRegion m' (regionAfter m r) = true := by
+  cases m <;> cases r <;> simp_all [regionAfter, gridsOnForecastRegion] <;> intro m' <;> cases m' <;> rfl
 
 /-! ### non-vacuity -/
 
